@@ -4,8 +4,11 @@ import (
 	"encoding/json"
 	"fmt"
 	"math"
+	"os/exec"
 	"regexp"
 	"strconv"
+	"strings"
+	"sync"
 	"time"
 
 	"verif/kit"
@@ -397,5 +400,173 @@ func timeSpaces(thorough bool) []fspace {
 			return ok("rfc3339", true)
 		},
 		desc: func(i uint64) any { return map[string]any{"t": times[i].name} }})
+	out = append(out, timeZoneSpace())
 	return out
+}
+
+// ---- Time methods over the full domain of zone offsets ----
+//
+// Every zone offset in seconds from -14h to +14h (offsets between -00:59 and
+// -00:01 and offsets that are not whole minutes included, as in LMT zones such
+// as Africa/Monrovia before 1972) × instants in years <= 0, 1, 1970, 2021,
+// 9999, >= 10000. JS() and JSON() are read with the Go implementation of the
+// ECMAScript date-time string grammar (jsDate) AND evaluated by /usr/bin/node
+// in one batch; both must give the instant of t.
+
+var zoneInstants = []struct {
+	name string
+	t    time.Time
+}{
+	{"-0005-06-15T12:30:45.678Z", time.Date(-5, 6, 15, 12, 30, 45, 678e6, time.UTC)},
+	{"0000-01-01T00:00:00Z", time.Date(0, 1, 1, 0, 0, 0, 0, time.UTC)},
+	{"1970-01-01T00:00:00Z", time.Unix(0, 0).UTC()},
+	{"2021-03-27T11:21:14.964Z", time.Date(2021, 3, 27, 11, 21, 14, 964e6, time.UTC)},
+	{"9999-12-31T23:59:59.999Z", time.Date(9999, 12, 31, 23, 59, 59, 999e6, time.UTC)},
+	{"12345-01-01T00:00:00Z", time.Date(12345, 1, 1, 0, 0, 0, 0, time.UTC)},
+}
+
+const zoneMin, zoneMax = -14 * 3600, 14 * 3600
+
+// zoneCase decodes an index: the first block has zone name "" and every
+// offset; the second block has the zone NAME "UTC" (time.Parse builds such a
+// zone for "+0100 UTC") with every multiple of 15 minutes.
+func zoneCase(i uint64) (inst int, name string, off int) {
+	nI := uint64(len(zoneInstants))
+	nOff := uint64(zoneMax - zoneMin + 1)
+	if i < nOff*nI {
+		return int(i % nI), "", zoneMin + int(i/nI)
+	}
+	i -= nOff * nI
+	return int(i % nI), "UTC", zoneMin + int(i/nI)*900
+}
+
+func zoneCases() uint64 {
+	return uint64(zoneMax-zoneMin+1)*uint64(len(zoneInstants)) + uint64((zoneMax-zoneMin)/900+1)*uint64(len(zoneInstants))
+}
+
+func zoneTime(i uint64) time.Time {
+	inst, name, off := zoneCase(i)
+	return zoneInstants[inst].t.In(time.FixedZone(name, off))
+}
+
+// nodeDates evaluates new Date(s).getTime() for every string with one node process.
+func nodeDates(strs []string) []float64 {
+	const script = `const rl=require('readline').createInterface({input:process.stdin,terminal:false,crlfDelay:Infinity});
+const out=[];rl.on('line',l=>{out.push(String(new Date(l).getTime()));if(out.length>=65536){process.stdout.write(out.join('\n')+'\n');out.length=0}});
+rl.on('close',()=>{if(out.length)process.stdout.write(out.join('\n')+'\n')});`
+	cmd := exec.Command("/usr/bin/node", "-e", script)
+	cmd.Stdin = strings.NewReader(strings.Join(strs, "\n") + "\n")
+	b, err := cmd.Output()
+	if err != nil {
+		panic("C25: cannot run /usr/bin/node for the Time.zones oracle: " + err.Error())
+	}
+	lines := strings.Split(strings.TrimRight(string(b), "\n"), "\n")
+	if len(lines) != len(strs) {
+		panic(fmt.Sprintf("C25: node returned %d results for %d dates", len(lines), len(strs)))
+	}
+	out := make([]float64, len(lines))
+	for i, l := range lines {
+		if l == "NaN" {
+			out[i] = math.NaN()
+			continue
+		}
+		v, err := strconv.ParseFloat(l, 64)
+		if err != nil {
+			panic("C25: node output " + l)
+		}
+		out[i] = v
+	}
+	return out
+}
+
+var jsArgRE = regexp.MustCompile(`^new Date\("([^"\\]*)"\)$`)
+
+func timeZoneSpace() fspace {
+	n := zoneCases()
+	var once sync.Once
+	var nodeJS, nodeJSON []float64
+	load := func() {
+		strs := make([]string, 0, 2*n)
+		for i := uint64(0); i < n; i++ {
+			t := builtin.NewTime(zoneTime(i))
+			js := string(t.JS())
+			if m := jsArgRE.FindStringSubmatch(js); m != nil {
+				js = m[1]
+			} else {
+				js = "not a new Date(\"…\") expression"
+			}
+			var s string
+			if json.Unmarshal([]byte(t.JSON()), &s) != nil || strings.ContainsAny(s, "\n\r") {
+				s = "not a JSON string"
+			}
+			strs = append(strs, js, s)
+		}
+		r := nodeDates(strs)
+		nodeJS, nodeJSON = make([]float64, n), make([]float64, n)
+		for i := uint64(0); i < n; i++ {
+			nodeJS[i], nodeJSON[i] = r[2*i], r[2*i+1]
+		}
+	}
+	return fspace{name: "Time.zones", size: n,
+		eval: func(i uint64) res {
+			once.Do(load)
+			inst, name, off := zoneCase(i)
+			w := zoneTime(i)
+			t := builtin.NewTime(w)
+			in := fmt.Sprintf("t = NewTime(%s in time.FixedZone(%q, %d))", zoneInstants[inst].name, name, off)
+			offClass := "whole-minute-offset"
+			if off%60 != 0 {
+				offClass = "offset-with-seconds"
+			}
+			if name == "UTC" && off != 0 {
+				offClass = "zone-named-UTC-with-an-offset"
+			}
+			yearClass := "year-0..9999"
+			if y := w.Year(); y < 0 || y > 9999 {
+				yearClass = "year-outside-0..9999"
+			}
+			// std wrappers
+			if g, p := try(func() [3]string { return [3]string{t.String(), t.Format(time.RFC3339Nano), t.Format(time.RFC1123Z)} }); p {
+				return unexpectedPanic(func() { _ = t.String(); t.Format(time.RFC3339Nano) }, in)
+			} else if g != [3]string{w.String(), w.Format(time.RFC3339Nano), w.Format(time.RFC1123Z)} {
+				return bad("String/Format|differs-from-time.Time", "input %s\nobserved %q", in, g)
+			}
+			// JS
+			js, p := try(func() string { return string(t.JS()) })
+			if p {
+				return unexpectedPanic(func() { t.JS() }, in+".JS()")
+			}
+			want := w.UnixMilli()
+			ms, valid := jsDate(js)
+			nodeMS := nodeJS[i]
+			if valid != !math.IsNaN(nodeMS) || valid && float64(ms) != nodeMS {
+				panic(fmt.Sprintf("C25 oracle disagreement on %s: jsDate = %d,%v node = %v", js, ms, valid, nodeMS))
+			}
+			if !valid {
+				return bad("JS|not-a-valid-new-Date-argument|"+yearClass, "input %s.JS()\nobserved %s (node: Invalid Date)", in, js)
+			}
+			if ms != want {
+				return bad("JS|JavaScript-date-is-another-instant|"+offClass, "input %s.JS() (Unix ms %d)\nobserved %s which node evaluates to Unix ms %d (differs by %d ms)", in, want, js, ms, ms-want)
+			}
+			// JSON
+			j, p := try(func() string { return string(t.JSON()) })
+			if p {
+				return unexpectedPanic(func() { t.JSON() }, in+".JSON()")
+			}
+			var s string
+			if err := json.Unmarshal([]byte(j), &s); err != nil {
+				return bad("JSON|not-a-JSON-string", "input %s.JSON()\nobserved %s", in, j)
+			}
+			if math.IsNaN(nodeJSON[i]) {
+				return bad("JSON|string-is-not-a-date-JavaScript-can-parse|"+yearClass, "input %s.JSON()\nobserved %s: new Date(%s) is Invalid Date in node (JS() of the same value is %s)", in, j, j, js)
+			}
+			if got := int64(nodeJSON[i]); got != w.Unix()*1000 {
+				return bad("JSON|string-denotes-another-instant|"+offClass, "input %s.JSON() (Unix s %d)\nobserved %s which node evaluates to Unix ms %d (differs by %d s)", in, w.Unix(), j, got, got/1000-w.Unix())
+			}
+			return ok(offClass+","+yearClass, true)
+		},
+		desc: func(i uint64) any {
+			inst, name, off := zoneCase(i)
+			return map[string]any{"instant": zoneInstants[inst].name, "zone_name": name, "zone_offset_seconds": off}
+		}}
 }
